@@ -173,9 +173,86 @@ fn run_job(job: &Value, clock0: &mut u64) -> Value {
     json!({"id": job["id"], "res": out})
 }
 
+// ---------------------------------------------------------------------------------------------------------------------
+// `vh_af regstatic`: the static-metric registration macros register_static_*_vec!(Struct, args...) against their explicit twins
+// (C20: each is register_*_vec!(args...) followed by Struct::from; same name, help, label names, buckets, registered once)
+mod regstatic {
+    use super::*;
+    make_static_metric! {
+        pub struct RC: Counter { "l" => { a, b } }
+        pub struct RIC: IntCounter { "l" => { a, b } }
+        pub struct RG: Gauge { "l" => { a, b } }
+        pub struct RIG: IntGauge { "l" => { a, b } }
+        pub struct RH: Histogram { "l" => { a, b } }
+    }
+
+    fn snapshot(name: &str) -> Value {
+        for mf in prometheus::gather() {
+            if mf.get_name() == name {
+                let ms: Vec<Value> = mf.get_metric().iter().map(|m| {
+                    let labels: Vec<String> = m.get_label().iter().map(|l| format!("{}={}", l.name(), l.value())).collect();
+                    let j = vh_pm::metric_json(m, mf.get_field_type());
+                    json!({"labels": labels, "counter": j["counter"]["bits"], "gauge": j["gauge"]["bits"], "buckets": j.get("hist").map(|h| h["b"].clone()), "count": j.get("hist").map(|h| h["count"].clone())})
+                }).collect();
+                return json!({"help": mf.get_help(), "type": vh_pm::type_name(mf.get_field_type()), "metrics": ms});
+            }
+        }
+        json!("absent")
+    }
+
+    macro_rules! one {
+        ($out:ident, $form:expr, $name:expr, $mac:expr, $twin:expr, $touch_m:expr, $touch_t:expr) => {{
+            let m = $mac;
+            let mac = match &m { Ok(s) => { $touch_m(s); snapshot($name) } Err(e) => json!({"err": format!("{:?}", e)}) };
+            // the same call again must be refused (the name is taken), and the first registration must still be there
+            let t = $twin;
+            prometheus::register(Box::new(t.clone())).unwrap();
+            let _ = t.with_label_values(&["a"]);
+            let _ = t.with_label_values(&["b"]);
+            $touch_t(&t);
+            let twin = snapshot(&format!("{}_twin", $name));
+            $out.push(json!({"form": $form, "macro": mac, "twin": twin}));
+        }};
+    }
+
+    pub fn run() -> Value {
+        let mut out: Vec<Value> = vec![];
+        let labels = ["l"];
+        one!(out, "counter(name, help, labels)", "rs_c1", register_static_counter_vec!(RC, "rs_c1", "help é", &labels),
+             CounterVec::new(Opts::new("rs_c1_twin", "help é"), &labels).unwrap(), |s: &RC| s.a.inc_by(3.0), |t: &CounterVec| t.with_label_values(&["a"]).inc_by(3.0));
+        one!(out, "counter(name, help, labels,)", "rs_c2", register_static_counter_vec!(RC, "rs_c2", "h2", &labels,),
+             CounterVec::new(Opts::new("rs_c2_twin", "h2"), &labels).unwrap(), |s: &RC| s.b.inc(), |t: &CounterVec| t.with_label_values(&["b"]).inc());
+        one!(out, "counter(opts, labels)", "rs_c3", register_static_counter_vec!(RC, opts!("rs_c3", "h3", labels!{"k" => "v"}), &labels),
+             CounterVec::new(Opts::new("rs_c3_twin", "h3").const_label("k", "v"), &labels).unwrap(), |s: &RC| s.a.inc(), |t: &CounterVec| t.with_label_values(&["a"]).inc());
+        one!(out, "int_counter(name, help, labels)", "rs_ic1", register_static_int_counter_vec!(RIC, "rs_ic1", "h", &labels),
+             IntCounterVec::new(Opts::new("rs_ic1_twin", "h"), &labels).unwrap(), |s: &RIC| s.a.inc_by(5), |t: &IntCounterVec| t.with_label_values(&["a"]).inc_by(5));
+        one!(out, "gauge(name, help, labels)", "rs_g1", register_static_gauge_vec!(RG, "rs_g1", "h", &labels),
+             GaugeVec::new(Opts::new("rs_g1_twin", "h"), &labels).unwrap(), |s: &RG| s.b.set(-2.5), |t: &GaugeVec| t.with_label_values(&["b"]).set(-2.5));
+        one!(out, "int_gauge(opts, labels,)", "rs_ig1", register_static_int_gauge_vec!(RIG, opts!("rs_ig1", "h"), &labels,),
+             IntGaugeVec::new(Opts::new("rs_ig1_twin", "h"), &labels).unwrap(), |s: &RIG| s.a.set(-7), |t: &IntGaugeVec| t.with_label_values(&["a"]).set(-7));
+        one!(out, "histogram(name, help, labels)", "rs_h1", register_static_histogram_vec!(RH, "rs_h1", "h", &labels),
+             HistogramVec::new(HistogramOpts::new("rs_h1_twin", "h"), &labels).unwrap(), |s: &RH| s.a.observe(0.3), |t: &HistogramVec| t.with_label_values(&["a"]).observe(0.3));
+        one!(out, "histogram(name, help, labels, buckets)", "rs_h2", register_static_histogram_vec!(RH, "rs_h2", "h", &labels, vec![0.25, 2.0, 64.0]),
+             HistogramVec::new(HistogramOpts::new("rs_h2_twin", "h").buckets(vec![0.25, 2.0, 64.0]), &labels).unwrap(), |s: &RH| s.b.observe(1.0), |t: &HistogramVec| t.with_label_values(&["b"]).observe(1.0));
+        one!(out, "histogram(name, help, labels, buckets,)", "rs_h3", register_static_histogram_vec!(RH, "rs_h3", "h", &labels, vec![1.0],),
+             HistogramVec::new(HistogramOpts::new("rs_h3_twin", "h").buckets(vec![1.0]), &labels).unwrap(), |s: &RH| s.a.observe(5.0), |t: &HistogramVec| t.with_label_values(&["a"]).observe(5.0));
+        one!(out, "histogram(histogram_opts, labels)", "rs_h4", register_static_histogram_vec!(RH, histogram_opts!("rs_h4", "h", vec![0.5, 8.0]), &labels),
+             HistogramVec::new(HistogramOpts::new("rs_h4_twin", "h").buckets(vec![0.5, 8.0]), &labels).unwrap(), |s: &RH| s.a.observe(1.0), |t: &HistogramVec| t.with_label_values(&["a"]).observe(1.0));
+        // a second call with a taken name is refused and leaves the first registration in place
+        let again = register_static_counter_vec!(RC, "rs_c1", "help é", &labels);
+        out.push(json!({"form": "second call with a taken name", "macro": {"refused": again.is_err(), "first_still_there": snapshot("rs_c1") != json!("absent")}, "twin": {"refused": true, "first_still_there": true}}));
+        Value::Array(out)
+    }
+}
+
 fn main() {
     std::panic::set_hook(Box::new(|_| {}));
     let a: Vec<String> = std::env::args().collect();
+    if a.get(1).map(|x| x.as_str()) == Some("regstatic") {
+        let r = std::panic::catch_unwind(regstatic::run);
+        println!("{}", match r { Ok(v) => json!({"ok": v}), Err(e) => json!({"panic": e.downcast_ref::<String>().cloned().unwrap_or_default()}) });
+        return;
+    }
     let inp = std::io::BufReader::new(std::fs::File::open(&a[1]).unwrap());
     let mut out = std::io::BufWriter::new(std::fs::File::create(&a[2]).unwrap());
     let mut clock0 = 0u64;
